@@ -307,7 +307,7 @@ def main():
 
     # ---- 2. TLC-generated behaviours
     sim_jobs = []
-    nsim = 2 if QUICK else 10
+    nsim = 2 if QUICK else 6
     for k in range(nsim):
         for cfg, me in (("MC_Raft3_sim.cfg", 0), ("MC_Raft3_sim1.cfg", 1)):
             num = 60 if QUICK else 300
@@ -320,8 +320,8 @@ def main():
 
     # ---- 3. random runs on the real code
     nfiles = 12 if QUICK else 16
-    runs_per = 16 if QUICK else 160
-    events = 300 if QUICK else 600
+    runs_per = 16 if QUICK else 64
+    events = 300 if QUICK else 400
     rnd_files = []
     t = time.time()
     rnd_stats = []
@@ -351,7 +351,7 @@ def main():
     for k in range(nb2):
         for prof, cfg in (("n3-spec", "TraceEtcdRaft.cfg"), ("n3-spec-one", "TraceEtcdRaft_one.cfg")):
             p = os.path.join(work, "b2-%s-%d.ndjson" % (prof, k))
-            pr = subprocess.run([sim_bin, "random", "-seed", str(SEED * 100 + 50 + k), "-runs", str(12 if QUICK else 60), "-events", "300",
+            pr = subprocess.run([sim_bin, "random", "-seed", str(SEED * 100 + 50 + k), "-runs", str(12 if QUICK else 40), "-events", "300",
                                  "-nodes", "-1", "-msgs", "-profile", prof, "-out", p],
                                 stdout=subprocess.PIPE, stderr=subprocess.STDOUT, text=True, timeout=600)
             if pr.returncode != 0:
